@@ -27,7 +27,7 @@ import numpy as np
 from lib import core, gen, oracle, graphcap, grapheval, dagcap
 
 EXTRACTORS = ["Kernels"]
-EXTRA_PROPS = ["C05Dag"]
+EXTRA_PROPS = ["C05Dag", "C05Dag2"]
 BACKENDS = [None, "numpy", "numpy.numpylike", "numpy.einsum"]
 UPDATE_OPS = ["set_at", "add_at", "subtract_at"]
 
@@ -385,12 +385,32 @@ def lean_optdag(ctx, items):
             ctx.count("optdag:structurally-equal:rewritten")
         # the decidable side conditions of `optimizeDag_sound` (Props/C05Dag.lean), computed by the driver for this run
         if r.get("good_run") and r.get("pure_lang"):
-            ctx.count("optdag:covered-by-optimizeDag_sound(side conditions hold, pure node language)")
+            ctx.count("optdag:covered-by-optimizeDag_sound(side conditions hold, node language of the evaluator)")
+            if r.get("has_effects"):
+                ctx.count("optdag:covered-by-optimizeDag_sound:with-inplace-nodes(opaque applications)")
         elif r.get("good_run"):
-            ctx.count("optdag:outside-the-pure-node-language(in-place nodes, multi-output casts, nested graphs)")
+            ctx.count("optdag:outside-the-node-language(Assert, multi-output casts, nested graphs)")
         ctx.count("optdag:side-condition-of-pass_terminates(topological order, every pass):" + ("holds" if r.get("fuel_run") else "fails"))
         ctx.count("optdag:side-conditions-of-optimizeDag_sound:" + ("hold" if r.get("good_run") else
                   "fail:" + ("top-level-graph-inlined" if not r.get("no_top_inline") else "top-not-a-wellformed-graph" if not r.get("wf_top") else "later-pass")))
+        # Props/C05Dag2.lean: the per-pass conditions follow from the INPUT graph (wfTop, topoOK) and noInlineRun -- the driver computes
+        # both sides; a disagreement contradicts `goodRun_of_input` / `fuelRun_of_input` (model and theorem out of step)
+        inp = bool(r.get("wf_top")) and bool(r.get("topo_ok")) and bool(r.get("no_inline_run"))
+        ctx.count("optdag:in-the-domain-of-optimizeDag_sound_input(input conditions, noInlineRun, node language):" + ("yes" if r.get("in_domain") else "no"))
+        if inp and not (r.get("good_run") and r.get("fuel_run")):
+            ctx.tie_broken("correspondence:optdag", f"{sig}: input conditions hold but goodRun/fuelRun computed by the driver do not (goodRun_of_input contradicted)")
+        # the measure: strictly decreasing in every pass that reports `changed` (pass_decreases_dag), pass bound (optimizeDag_pass_bound)
+        w = r.get("weights") or []
+        if r.get("measure_ok") and r.get("no_inline_run"):
+            ctx.count("optdag:in-the-domain-of-optimizeDag_terminates_dag(topological, single-output, noInlineRun):yes")
+            ok = len(w) == len(r["changed"]) + 1 and all((b < a) if ch else (b == a) for a, b, ch in zip(w, w[1:], r["changed"])) \
+                and sum(1 for ch in r["changed"] if ch) + w[-1] <= w[0]
+            if not ok:
+                ctx.tie_broken("correspondence:optdag", f"{sig}: weights {w} with flags {r['changed']} contradict pass_decreases_dag / optimizeDag_pass_bound")
+            ctx.count("optdag:measure:max-passes-allowed-minus-taken>=0:" + str(w[0] + 1 - len(r["changed"]) >= 0))
+        else:
+            ctx.count("optdag:in-the-domain-of-optimizeDag_terminates_dag(topological, single-output, noInlineRun):no:" +
+                      ("multi-output-or-unordered" if not r.get("measure_ok") else "top-level-graph-inlined"))
         ctx.extra["optdag_structurally_equal"] = ctx.extra.get("optdag_structurally_equal", 0) + 1
 
 
